@@ -390,21 +390,23 @@ def expectChar (c : Char) (t : Text) : Option Text :=
   | x :: r => if x = c then some r else none
   | [] => none
 
-/-- the time-zone suffix `(Z|[+-]hh:mm)?`, at most ±14:00 (XML Schema part 2, 3.2.7.3) -/
+/-- `[+-]hh:mm`, at most ±14:00 (XML Schema part 2, 3.2.7.3) -/
+def isTzOffset (s : Char) (r : Text) : Bool :=
+  (s = '+' || s = '-') &&
+  (match twoDigits r with
+   | some (h, r1) =>
+     (match expectChar ':' r1 with
+      | some r2 => (match twoDigits r2 with
+        | some (m, []) => (h < 14 && m < 60) || (h = 14 && m = 0)
+        | _ => false)
+      | none => false)
+   | none => false)
+
+/-- the time-zone suffix `(Z|[+-]hh:mm)?` -/
 def isTz (t : Text) : Bool :=
   match t with
   | [] => true
-  | ['Z'] => true
-  | s :: r =>
-    (s = '+' || s = '-') &&
-    (match twoDigits r with
-     | some (h, r1) =>
-       (match expectChar ':' r1 with
-        | some r2 => (match twoDigits r2 with
-          | some (m, []) => (h < 14 && m < 60) || (h = 14 && m = 0)
-          | _ => false)
-        | none => false)
-     | none => false)
+  | s :: r => (s = 'Z' && r.isEmpty) || isTzOffset s r
 
 /-- xs:dateTime with a non-negative four-digit year: `yyyy-mm-ddThh:mm:ss(\.\d+)?(Z|[+-]hh:mm)?`,
 month 1-12, day 1-31, hour < 24, minute < 60, second < 60 -/
